@@ -7,9 +7,11 @@
     the atoms of the text in text order, `atomname`, and `ez_isomer_class` = the last character of the mark stored for a key
     that is a node (set_node_attributes ignores the others).  [marked_template] is compared with the implementation's
     fragment graphs on every run (EzCheck.frag_ok: element, chiral, ez_isomer_class, bonding, edges with order).
-    LIMIT: `hcount` of an atom written without brackets is set to 0 here (pysmiles would count its implicit hydrogens);
-    rebuild_h_atoms overwrites every hcount, so the returned graph does not depend on it, but the intermediate graphs do:
-    [resolve_string] is claimed only for fragments whose atoms carry no hydrogens (the refutation witnesses). *)
+    LIMIT: `hcount` of an atom written without brackets is set to 0 here (pysmiles would count its implicit hydrogens).
+    rebuild_h_atoms resets every hcount and recomputes it from elements, charges and bonds, so the molecule after the
+    hydrogen step - hence the sorted and the returned molecule - does not depend on it; the graphs BEFORE the hydrogen step
+    (fo_m2, fo_m3) do and are not claimed.  [resolve_string] is compared with the implementation on every string case of
+    the C15 check (EzCheck.string_ok: sorted and returned molecule on element, fragid, chiral, ez_*, bond orders). *)
 From Coq Require Import String.
 From Coq Require Import List Ascii ZArith Bool.
 From CGV Require Import Base.PyBase Base.PyVal Base.NxGraph Dialect.DialectImpl Frag.NDict Frag.StripImpl Frag.SmilesParse Frag.Template
